@@ -237,8 +237,11 @@ func c12Unblock(r *verdict.Run, race bool) {
 	}
 	var all []scn
 	for _, f := range blkForms {
-		for _, where := range []string{"not-blocked", "before-begin", "before-register", "after-register", "before-capture", "waiting", "with-push", "unknown-id", "stale-then-block"} {
+		for _, where := range []string{"not-blocked", "before-begin", "before-register", "after-register", "before-capture", "waiting", "with-push", "unknown-id", "stale-then-block", "in-empty-wakeup-transaction", "kill-in-empty-wakeup-transaction"} {
 			for _, mode := range []string{"", "TIMEOUT", "ERROR"} {
+				if where == "kill-in-empty-wakeup-transaction" && mode != "" {
+					continue
+				}
 				all = append(all, scn{f, where, mode})
 			}
 		}
@@ -355,6 +358,64 @@ func c12Unblock(r *verdict.Run, race bool) {
 				}
 			} else {
 				// 0: the target must be unaffected: it blocks and is served by a push
+				if w.finished(c11Settle) {
+					r.Report("unblock/reports-0-but-target-ended", fmt.Sprintf("%s: CLIENT UNBLOCK replied %s but the target ended with %s", s.name, v, w.reply), s.rep())
+					return
+				}
+				s.do("RPUSH", "q", "el-1")
+				s.expectServed(w, "el-1", "unblock/target-not-served-afterwards")
+			}
+		case "in-empty-wakeup-transaction", "kill-in-empty-wakeup-transaction":
+			// the request is accepted in the middle of a wake-up that finds nothing: one transaction of another client
+			// pushes (which wakes the target), unblocks or kills the target, and takes the element away again. The target
+			// cannot pop before EXEC is over; what CLIENT UNBLOCK replied must still decide how its block ends.
+			from := c.EventCount()
+			c.Ctl("watch blk:before-wait")
+			w.issue(cmd, 15*time.Second)
+			if _, _, f := c.WaitEvent(from, func(ev host.Event) bool { return ev.Kind == "hit" && ev.Point == "blk:before-wait" && ev.ID == w.id }, 5*time.Second); !f {
+				r.Inconclusive("waiter did not reach blk:before-wait")
+				return
+			}
+			time.Sleep(5 * time.Millisecond)
+			req := []string{"CLIENT", "UNBLOCK", strconv.FormatInt(w.id, 10)}
+			if sc.mode != "" {
+				req = append(req, sc.mode)
+			}
+			kill := sc.where == "kill-in-empty-wakeup-transaction"
+			if kill {
+				req = []string{"CLIENT", "KILL", "ID", strconv.FormatInt(w.id, 10)}
+			}
+			s.do("MULTI")
+			s.do("RPUSH", "q", "ghost")
+			s.do(req...)
+			s.do("LPOP", "q")
+			ex := s.do("EXEC")
+			if ex.Kind != '*' || len(ex.Elems) != 3 || ex.Elems[2].Text() != "ghost" {
+				r.Report("unblock/in-transaction/unexpected-exec-reply", fmt.Sprintf("%s: EXEC replied %s", s.name, ex), s.rep())
+				return
+			}
+			v := ex.Elems[1]
+			if kill {
+				// the killed client must stop competing: its connection ends, and a later push stays in the list
+				w.finished(3 * time.Second)
+				time.Sleep(100 * time.Millisecond)
+				s.do("RPUSH", "q", "el-1")
+				time.Sleep(c11Settle)
+				ll := s.do("LLEN", "q")
+				if ll.Int != 1 {
+					r.Report("kill/in-transaction/killed-client-still-competes", fmt.Sprintf("%s: CLIENT KILL inside the transaction replied %s; a push after it: LLEN q = %s, LLEN dst = %s, the killed client read %s (%v)", s.name, v, ll, s.do("LLEN", "dst"), w.reply, w.err), s.rep())
+				}
+				break
+			}
+			if v.Kind == ':' && v.Int == 1 {
+				if !w.finished(3 * time.Second) {
+					r.Report("unblock/reports-1-but-target-stays-blocked/in-empty-wakeup-transaction", fmt.Sprintf("%s: CLIENT UNBLOCK inside MULTI; RPUSH; CLIENT UNBLOCK; LPOP; EXEC replied 1, but the target stays blocked", s.name), s.rep())
+					return
+				}
+				if ok, what := endedBy(); !ok {
+					r.Report("unblock/wrong-ending", fmt.Sprintf("%s: expected %s, the target got %s", s.name, what, w.reply), s.rep())
+				}
+			} else {
 				if w.finished(c11Settle) {
 					r.Report("unblock/reports-0-but-target-ended", fmt.Sprintf("%s: CLIENT UNBLOCK replied %s but the target ended with %s", s.name, v, w.reply), s.rep())
 					return
@@ -593,19 +654,35 @@ func c12Reuse(r *verdict.Run) {
 		}
 		r.Distinct("reuse/" + f.name)
 		w.cn.Close()
-		// inside MULTI/EXEC a blocking command with timeout 0 returns at once (null on an empty list, element otherwise)
+		// inside MULTI/EXEC a blocking command never waits (null on an empty list, element otherwise), whatever else the
+		// transaction contains before it: a queued SELECT to another (used, never used, or the own) database, WATCH before
+		// MULTI, a long timeout instead of 0
 		cn, _ := e.dial()
-		cn.Timeout = 3 * time.Second
+		cn.Timeout = 5 * time.Second
 		cn.Proto = 3
-		vs, err := cn.Pipeline([][]string{{"MULTI"}, f.args([]string{"emptyq"}, "0"), {"RPUSH", "mq", "el-m"}, f.args([]string{"mq"}, "0"), {"EXEC"}})
-		r.Eval(1)
-		if err != nil {
-			r.Report("multi/blocking-command-blocks-inside-exec/"+f.name, fmt.Sprintf("MULTI; %s; EXEC did not complete within 3 s: %v", cmdString(f.args([]string{"emptyq"}, "0")), err), nil)
-		} else {
-			ex := vs[4]
-			if ex.Kind != '*' || len(ex.Elems) != 3 || !ex.Elems[0].Null || len(elements(ex.Elems[2])) != 1 {
-				r.Report("multi/blocking-command-reply-inside-exec/"+f.name, fmt.Sprintf("EXEC replied %s (expected [null, 1, the element])", ex), nil)
+		for pi, prelude := range [][][]string{nil, {{"SELECT", "1"}}, {{"SELECT", "1"}, {"SELECT", "0"}}, {{"SELECT", strconv.Itoa(5 + len(f.name)%9)}}, {{"SELECT", "0"}}, {{"SELECT", "2"}, {"SET", "other", "v"}}} {
+			to := []string{"0", "30"}[pi%2]
+			prog := [][]string{{"WATCH", "unrelated"}, {"MULTI"}}
+			prog = append(prog, prelude...)
+			prog = append(prog, f.args([]string{"emptyq"}, to), []string{"RPUSH", "mq", "el-m"}, f.args([]string{"mq"}, to), []string{"DEL", "mq", "dst"}, []string{"EXEC"})
+			vs, err := cn.Pipeline(prog)
+			r.Eval(1)
+			tag := fmt.Sprintf("%s/prelude-%d", f.name, pi)
+			if err != nil {
+				r.Report("multi/blocking-command-blocks-inside-exec/"+tag, fmt.Sprintf("%s did not complete within 5 s (nobody pushes): %v", progString(prog), err), nil)
+				cn.Close()
+				cn, _ = e.dial()
+				cn.Timeout = 5 * time.Second
+				cn.Proto = 3
+				continue
 			}
+			ex := vs[len(vs)-1]
+			np := len(prelude)
+			if ex.Kind != '*' || len(ex.Elems) != np+4 || !ex.Elems[np].Null || len(elements(ex.Elems[np+2])) != 1 {
+				r.Report("multi/blocking-command-reply-inside-exec/"+tag, fmt.Sprintf("%s: EXEC replied %s (expected [.., null, 1, the element, n])", progString(prog), ex), nil)
+			}
+			cn.Do("SELECT", "0")
+			r.Distinct("multi/" + tag)
 		}
 		r.Distinct("multi/" + f.name)
 		cn.Close()
@@ -721,4 +798,12 @@ func c12EndingsBehindLiveWaiter(r *verdict.Run) {
 		s.expectServed(ws[0], "el-1", "ending/live-waiter-dropped-when-two-behind-it-ended/"+sc.form.name)
 		r.Distinct(s.name)
 	})
+}
+
+func progString(prog [][]string) string {
+	var parts []string
+	for _, p := range prog {
+		parts = append(parts, cmdString(p))
+	}
+	return strings.Join(parts, "; ")
 }
